@@ -144,6 +144,76 @@ async def loop_output_run_case(context):
     return None
 
 
+async def conditional_case(context):
+    """the loop-when step (CWLLoopConditionalStep) with two loop variables and 2..3 concurrent loop instances whose iteration tokens
+    reach its two input ports in INDEPENDENT interleavings: every instance is evaluated at every iteration, so every instance gets
+    its termination and, through the loop output step, exactly one output with all its values"""
+    from streamflow.core.workflow import Status
+    from streamflow.cwl.step import CWLLoopConditionalStep
+    from streamflow.cwl.workflow import CWLWorkflow
+    from streamflow.workflow.token import TerminationToken
+
+    global _cc
+    _cc = globals().get("_cc", 0) + 1
+    wf = CWLWorkflow(context=context, name=f"c06-cond-{_cc}", config={}, cwl_version="v1.2")
+    in_ports = {k: wf.create_port() for k in ("i1", "i2")}
+    out_ports = {k: wf.create_port() for k in ("i1", "i2")}
+    lo_in, lo_out = wf.create_port(), wf.create_port()
+    cond = wf.create_step(cls=CWLLoopConditionalStep, name=f"/loop{_cc}-when", expression="$(inputs.i1 < inputs.i2)", full_js=True)
+    for k in ("i1", "i2"):
+        cond.add_input_port(k, in_ports[k])
+        cond.add_output_port(k, out_ports[k])
+    cond.add_skip_port("o1", lo_in)
+    loop_out = wf.create_step(cls=CWLLoopOutputAllStep, name=f"/o{_cc}-loop-output")
+    loop_out.add_input_port("o1", lo_in)
+    loop_out.add_output_port("o1", lo_out)
+    await wf.save(context.database)
+
+    async def put(port, tag, value):
+        t = Token(value=value, tag=tag)
+        await t.save(context.database, port_id=port.persistent_id)
+        port.put(t)
+
+    counts = {f"0.{j}": rng.randint(1, 3) for j in rng.sample(range(12), rng.randint(2, 3))}
+
+    def interleaving():
+        seqs = [[(f"{inst}.{k}", k, c) for k in range(c + 1)] for inst, c in counts.items()]
+        order = []
+        while any(seqs):
+            q = rng.choice([x for x in seqs if x])
+            order.append(q.pop(0))
+        return order
+
+    o1, o2 = interleaving(), interleaving()
+    for tag, i1, _ in o1:
+        await put(in_ports["i1"], tag, i1)
+    for tag, _, i2 in o2:
+        await put(in_ports["i2"], tag, i2)
+    for prt in in_ports.values():
+        prt.put(TerminationToken(Status.COMPLETED))
+    body = [(f"{inst}.{k}", k + 1) for inst, c in counts.items() for k in range(c)]
+    rng.shuffle(body)
+    for tag, v in body:
+        await put(lo_in, tag, v)
+    lo_task = asyncio.create_task(loop_out.run())
+    try:
+        await asyncio.wait_for(cond.run(), 60)
+        lo_in.put(TerminationToken(Status.COMPLETED))
+        await asyncio.wait_for(lo_task, 60)
+    except asyncio.TimeoutError:
+        lo_task.cancel()
+        return {"failure": "the loop-when / loop output steps did not terminate", "instances": counts}
+    outputs = {}
+    for t in lo_out.token_list:
+        if isinstance(t, ListToken):
+            outputs.setdefault(t.tag, []).append([e.value for e in t.value])
+    want = {inst: [list(range(1, c + 1))] for inst, c in counts.items()}
+    if outputs != want:
+        return {"failure": "a loop instance did not get exactly one output with all its iteration values", "outputs": outputs, "expected": want,
+                "arrival_on_i1": [x[0] for x in o1], "arrival_on_i2": [x[0] for x in o2]}
+    return None
+
+
 async def loop_step_search(n):
     import tempfile
 
@@ -153,7 +223,7 @@ async def loop_step_search(n):
     context = build_context({"database": {"type": "default", "config": {"connection": ":memory:"}}, "path": workdir})
     try:
         for _ in range(n):
-            bad = await loop_step_case(context) or await loop_output_run_case(context) or await loop_output_run_case(context)
+            bad = await loop_step_case(context) or await loop_output_run_case(context) or await loop_output_run_case(context) or await conditional_case(context)
             if bad:
                 return bad
     finally:
@@ -162,14 +232,41 @@ async def loop_step_search(n):
     return None
 
 
+def restore_case(n=300):
+    """LoopCombinator.restore on the real class: resuming instance `prefix` at iteration k (0..25, so two digits too) sets its counter to the
+    NUMBER k unless the counter is already further; other instances keep theirs"""
+    from streamflow.workflow.combinator import LoopCombinator
+
+    for _ in range(n):
+        c = LoopCombinator.__new__(LoopCombinator)
+        c.iteration_map = {}
+        prefixes = rng.sample(["0", "0.1", "0.10", "0.3.12", "7"], rng.randint(1, 3))
+        before = {p: rng.randint(0, 25) for p in prefixes if rng.random() < 0.4}
+        untouched = {"9.9": rng.randint(0, 30)} if rng.random() < 0.5 else {}
+        c.iteration_map.update(before)
+        c.iteration_map.update(untouched)
+        req, want = {}, dict(before)
+        for j, p in enumerate(prefixes):
+            for port in range(rng.randint(1, 2)):
+                k = rng.randint(0, 25)
+                req[f"port{j}_{port}"] = (p, f"{p}.{k}")
+                want[p] = max(want.get(p, k), k)
+        asyncio.run(c.restore(req))
+        want.update(untouched)
+        if dict(c.iteration_map) != want:
+            return {"unit": "LoopCombinator.restore", "failure": "the iteration counters after restore are not the requested iterations", "counters_before": {**before, **untouched},
+                    "request": req, "counters_after": dict(c.iteration_map), "expected": want}
+    return None
+
+
 def replay(path):
     load_replay(path)
-    bad = search(400) or asyncio.run(loop_step_search(25))
+    bad = restore_case() or search(400) or asyncio.run(loop_step_search(25))
     finish_replay(path, bad, "(400 output-policy instances, 0..15 iterations, shuffled arrival; 25 loop-step runs with 1..14 instances)")
 
 
 def crosscheck(n):
-    bad = search(int(n) * 4) or asyncio.run(loop_step_search(max(12, int(n) // 4)))
+    bad = restore_case() or search(int(n) * 4) or asyncio.run(loop_step_search(max(12, int(n) // 4)))
     print(json.dumps({"inputs": int(n) * 4, "native_contract_failures": 1 if bad else 0, "samples": [bad] if bad else []}, default=str))
     sys.exit(1 if bad else 0)
 
